@@ -36,7 +36,11 @@ def generate(ctx):
                "adjust": rng.choice([None, "half", "zero", "clamp", "identity"]),
                # bracket observations that are not finite (the NaN fill of an event record, an "infinitely long ago" marker):
                # the pairs that REPLACE a bracket by the sample must still hand the sample back
-               "nonfinite": rng.random() < 0.35, "stray_kwarg": rng.random() < 0.5}
+               "nonfinite": rng.random() < 0.35, "stray_kwarg": rng.random() < 0.5,
+               # element types of the data (spike counts, single-precision state) and of the sample times: the round trip is
+               # stated for every pair, whatever type the arithmetic promotes to
+               "data_dtype": rng.choice(["float64", "float64", "float64", "float32", "int32", "int64"]),
+               "time_dtype": rng.choice(["float64", "float64", "float32"])}
     for _ in range(600 if th else 40):
         dist = rng.choice(["Poisson", "Normal", "LogNormal"])
         if dist == "Poisson":
@@ -57,6 +61,13 @@ def generate(ctx):
             d["narrow"] = True
             d["as"] = rng.choice(["f64tensor", "pyfloat", "pyfloat"])
         yield d
+        if rng.random() < 0.3:
+            # scales at the far ends of what single precision represents (a physical quantity in SI units): the scale, the
+            # density and the cdf are all representable there, so the density laws hold; the variance scale**2 is not
+            # representable in single precision and is only checked in double precision
+            yield {"part": "dist", "dist": "Normal", "extreme": True, "as": rng.choice(["f64tensor", "pyfloat", "pyfloat"]),
+                   "params": {"loc": 0.0, "scale": rng.choice([1e-25, 1e-22, 1e-20, 1e-12, 1e12, 1e19, 1e22, 1e25,
+                                                              float(f"{10 ** rng.uniform(-28, 28):.3g}")])}}
     for _ in range(2500 if th else 200):
         nd = rng.randint(0, 2)
         yield {"part": "isi", "T": rng.choice([1, 2, 3, 5, 12, 40]), "pop": [rng.randint(1, 3) for _ in range(nd)],
@@ -71,9 +82,12 @@ def generate(ctx):
     for _ in range(700 if th else 60):
         yield {"part": "vp", "n": [rng.randint(0, 6) for _ in range(3)], "seed": rng.randrange(1 << 30),
                "costs": sorted(rng.choice([0.01, 0.1, 0.5, 1.0, 2.0, 5.0, 50.0]) for _ in range(3)),
+               "int_costs": sorted(rng.choice([1, 1, 2, 3, 5, 50]) for _ in range(3)),
                "grid": rng.random() < 0.5,
                # spike times as they come out of torch.nonzero (integer step indices) or in single precision
-               "times_dtype": rng.choice(["float64", "float64", "float32", "int64", "int32"])}
+               "times_dtype": rng.choice(["float64", "float64", "float32", "int64", "int32"]),
+               # the cost as a python float, a python int, a 0-dim tensor or an integer-typed tensor (whole-number costs)
+               "cost_as": rng.choice(["float", "float", "int", "int_tensor", "zero_dim"])}
 
 
 def run_case(ctx, desc):
@@ -106,6 +120,18 @@ def _interp(ctx, desc):
         if nf_.numel() > 2:
             nf_[1] = float("nan")
         ctx.count("roundtrips_with_nonfinite_brackets")
+    prev64, nxt64 = prev, nxt
+    ddt = {"float64": torch.float64, "float32": torch.float32, "int32": torch.int32, "int64": torch.int64}[desc.get("data_dtype", "float64")]
+    tdt = torch.float32 if desc.get("time_dtype") == "float32" else torch.float64
+    typed = ddt != torch.float64 or tdt != torch.float64
+    if typed and not (desc.get("nonfinite") and desc["pair"] < 6 and not ddt.is_floating_point):
+        sample, prev, nxt = sample.to(ddt), prev.to(ddt), nxt.to(ddt)
+        ctx.count("roundtrips_with_other_data_or_time_dtypes")
+    else:
+        typed, ddt, tdt = False, torch.float64, torch.float64
+    single = typed and (ddt == torch.float32 or tdt == torch.float32)
+    # the arithmetic runs in the promoted type: single precision when either side is single precision
+    RT, AT = (2e-5, 2e-4) if single else (1e-10, 1e-9)
     fracs = [0.0, 1e-6, 0.1, 0.25, 0.5 - 1e-6, 0.5, 0.5 + 1e-6, 0.75, 0.9, 1 - 1e-6, 1.0]
     efn, ifn = getattr(inff, "extrap_" + ex), getattr(inff, "interp_" + ip)
     # the linear pairs document an optional adjustment f of the bracket they keep: X(0) = f(D(0)) (forward) or
@@ -115,7 +141,7 @@ def _interp(ctx, desc):
         kw = {**kw, "adjust": adj}
     for fr in fracs:
         ctx.case(f"interp/{ex}->{ip}/frac{fr}/dt{dt}")
-        sat = torch.full(shape, fr * dt, dtype=torch.float64)
+        sat = torch.full(shape, fr * dt, dtype=tdt)
         linear = ex.startswith("linear")
         if linear and (fr in (0.0, 1.0)):
             # the line through one bracket and the sample is undefined when they coincide in time
@@ -129,9 +155,9 @@ def _interp(ctx, desc):
             return
         if ex in ("expdecay", "expratedecay"):
             # both extrapolated slots lie on ONE decay curve: decaying the older one for a full step gives the newer one
-            full = ifn(a, b, torch.full(shape, dt, dtype=torch.float64), dt, **kw)
+            full = ifn(a, b, torch.full(shape, dt, dtype=tdt), dt, **kw)
             ctx.count("decay_curve_laws")
-            if not torch.allclose(full, b, rtol=1e-10, atol=1e-9):
+            if not torch.allclose(full.double(), b.double(), rtol=RT, atol=AT):
                 ctx.violation(f"interp.decay_curve.{ex}", "extrapolated older and newer slots are not on one decay curve", desc,
                               {"frac": fr})
                 return
@@ -145,12 +171,13 @@ def _interp(ctx, desc):
                 ctx.violation(f"interp.adjusted_bracket.{ex}", "the kept bracket is not the adjusted observation f(D)", desc, {"frac": fr})
                 return
         ctx.count("roundtrip_laws")
-        if not torch.allclose(back, sample, rtol=1e-10 * cond, atol=1e-9 * cond):
+        if not torch.allclose(back.double(), sample.double(), rtol=RT * cond, atol=AT * cond):
             ctx.violation(f"interp.roundtrip.{ex}->{ip}", f"interp(extrap(x)) != x at sample_at={fr}*dt", desc,
-                          {"frac": fr, "err": float((back - sample).abs().max())})
+                          {"frac": fr, "err": float((back.double() - sample.double()).abs().max())})
             return
     if desc.get("nonfinite") and desc["pair"] < 6:
         return
+    prev, nxt = prev64, nxt64
     # linear interpolation: between the brackets, equal to them at the ends
     for fr in [0.0, 0.2, 0.5, 0.8, 1.0]:
         sat = torch.full(shape, fr * dt, dtype=torch.float64)
@@ -257,9 +284,10 @@ def _dist(ctx, desc):
     else:
         x = torch.exp(torch.linspace(loc - 11 * scale, loc + 11 * scale, n, dtype=torch.float64))
     narrow = bool(desc.get("narrow"))
+    extreme = bool(desc.get("extreme"))
     # a narrow density cannot be resolved on a single-precision support grid: python-float parameters then meet a
     # double-precision support (the parameters still take the library's python-float conversion)
-    xs = x if (f64 or narrow) else x.float()
+    xs = x if (f64 or narrow) else x.float()     # (a double-precision support would promote python-float parameters)
     lo, sc = conv(loc), conv(scale)
     pdf = _call(ctx, desc, "pdf", D.pdf, xs, lo, sc)
     lpdf = _call(ctx, desc, "logpdf", D.logpdf, xs, lo, sc)
@@ -282,12 +310,20 @@ def _dist(ctx, desc):
     if not close(lcdf[ok], torch.log(cdf[ok]), rt=1e-6 if f64 else 1e-3, at=1e-6 if f64 else 1e-3):
         return ctx.violation(f"dist.{name}.logcdf_ne_log_cdf", "logcdf != log(cdf)", desc)
     m = float(torch.trapezoid(x * pdf, x))
+    if extreme:
+        ctx.count("density_laws_at_extreme_scales")
+        mean = float(D.mean(lo))
+        if not abs(m - mean) <= 5e-3 * scale:
+            return ctx.violation(f"dist.{name}.mean_ne_first_moment", f"mean {mean} vs moment {m} at scale {scale}", desc)
+        if not f64:
+            return
     v = float(torch.trapezoid((x - m) ** 2 * pdf, x))
     mean = float(D.mean(lo) if name == "Normal" else D.mean(lo, sc))
     var = float(D.variance(sc) if name == "Normal" else D.variance(lo, sc))
     if narrow:
         ctx.count("narrow_moment_checks")
-    if not close(m, mean, rt=1e-5 if f64 else 5e-3, at=1e-6 if f64 else (1e-5 if narrow else 5e-3)):
+    narrow = narrow or extreme      # double precision from here on at an extreme scale: relative comparisons only
+    if not extreme and not close(m, mean, rt=1e-5 if f64 else 5e-3, at=1e-6 if f64 else (1e-5 if narrow else 5e-3)):
         return ctx.violation(f"dist.{name}.mean_ne_first_moment", f"mean {mean} vs moment {m}", desc)
     # the variance of a narrow distribution is far below any absolute band: relative comparison only
     if not close(v, var, rt=1e-4 if f64 else (2e-3 if narrow else 1e-2), at=(0.0 if narrow else 1e-6) if f64 else (0.0 if narrow else 5e-3)):
@@ -387,8 +423,20 @@ def _vp(ctx, desc):
     a, b, c = (torch.tensor(t, dtype=torch.float64).to(tdt) for t in trains)
     if tdt != torch.float64:
         ctx.count("vp_cases_with_other_spike_time_dtypes")
-    costs = desc["costs"]
-    d = inferno.victor_purpura_pair_dist
+    cost_as = desc.get("cost_as", "float")
+    costs = desc["int_costs"] if cost_as in ("int", "int_tensor") else desc["costs"]
+    dist_fn = inferno.victor_purpura_pair_dist
+    if cost_as != "float":
+        ctx.count("vp_cases_with_other_cost_forms")
+
+    def d(x, y, q):
+        if isinstance(q, torch.Tensor) or cost_as == "float" or q in (0.0, float("inf")):
+            return dist_fn(x, y, q)
+        if cost_as == "int":
+            return dist_fn(x, y, int(q))
+        if cost_as == "int_tensor":
+            return dist_fn(x, y, torch.tensor([int(q)]))
+        return dist_fn(x, y, torch.tensor(float(q)))
     ctx.case(f"vp/n{min(desc['n'][0], 3)}-{min(desc['n'][1], 3)}-{min(desc['n'][2], 3)}/grid{int(desc['grid'])}/{desc.get('times_dtype', 'float64')}")
     ctx.count("vp_cases")
     eps = 2e-5 * (sum(desc['n']) + 1)  # a float cost makes the dynamic programme run in float32
@@ -416,7 +464,7 @@ def _vp(ctx, desc):
         n, m = len(trains[0]), len(trains[1])
         if float(d(a, b, 0.0)) != abs(n - m) or float(d(a, b, float("inf"))) != n + m:
             return ctx.violation("vp.cost_limits", "documented values at cost 0 / inf not returned", desc)
-        vec = d(a, b, torch.tensor(costs, dtype=torch.float64))
+        vec = d(a, b, torch.tensor(costs, dtype=torch.int64 if cost_as == "int_tensor" else torch.float64))
         each = [float(d(a, b, q)) for q in costs]
         if tuple(vec.shape) != (len(costs),) or not np.allclose(vec.numpy(), each, atol=eps):
             return ctx.violation("vp.vector_cost", "tensor of costs disagrees with scalar costs", desc)
